@@ -141,6 +141,11 @@ loop:
 
 		p.waitForStdOutErr()
 		_ = p.command.Wait()
+		if !p.procConf.IsDaemon {
+			// the command is gone: nothing to probe until it is relaunched (a daemon
+			// lives on after its launcher command and is still watched)
+			p.stopProbes()
+		}
 		p.Lock()
 		p.setExitCode(p.command.ExitCode())
 		p.Unlock()
